@@ -6,6 +6,7 @@ twin oracle and the correspondence; see MANIFEST.)
 import SC.Lemmas.Buffer
 import SC.Lemmas.BufSize
 import SC.Lemmas.Merge
+import SC.Lemmas.BufVisible
 namespace SC.Props
 open SC SC.B
 
@@ -49,6 +50,18 @@ theorem C05_exit_writes_buffered_serialized_content (s : B.State) (oi : Nat) (o 
   have herr : (updNode s.fam (s.root o) e.contents s.next).err = none := by
     simpa [mergeInto] using hmerge
   exact (updNode_post s.fam e.contents (s.root o) s.next hc hr hnn herr).1
+
+/-- C05, "reads see all earlier buffered writes" (serialized; the instance `oj = oi` of
+`C06_serialized_write_visible`): after a buffered save that does not overflow the buffer, the next
+buffered load through the same object merges exactly the saved content, without any file having
+been written. -/
+theorem C05_reads_see_buffered_writes (s : B.State) (oi : Nat) (o : B.Obj)
+    (hs : s.strategy = .serialized) (ho : s.objs[oi]? = some o) (hb : s.isBuffered o = true)
+    (hfit : ¬ (saveSer (s.register oi) o).size > (saveSer (s.register oi) o).capacity) :
+    (save s oi).2 = none ∧ (save s oi).1.stores = s.stores ∧
+    load (save s oi).1 oi = mergeInto ((save s oi).1.register oi) oi o (s.root o).toBase :=
+  let h := serialized_write_visible s oi oi o o hs ho hb ho hb rfl hfit
+  ⟨h.1, h.2.1, h.2.2.1⟩
 
 /-- non-vacuity and the whole scenario on the machine (shared memory, list): writes inside nested
 contexts of both kinds leave the file missing; the outermost exit writes the final content. -/
